@@ -422,6 +422,19 @@ def fam_bind(r, idx, sweep=None):
             [W.A(W.S("f32"), 8), W.AT("u32"), W.V(4, "f32")])))
     shape = build_graph(r, spec, namer, r.choice([0, 1, 2, 3, 4, 6, 9, 14]), stages)
     spec.families.append("graph:" + shape)
+    pcs = [g for g in spec.globals if g.kind == "push"]
+    if pcs and spec.entries and r.random() < 0.6:
+        # the push constant is (also) read by a dedicated helper without return value that one
+        # or two entry points call from a random statement position (incl. continuing blocks
+        # and for-update clauses)
+        h = Func(namer.fresh("fn_pc_"), False)
+        form, e_, s_ = buffer_forms(pcs[0], spec.structs, prefer=r.randrange(8))[0]
+        h.actions.append(Action("access", r.choice(S_SITES), glob=[pcs[0].name], form=form,
+                                expr=e_, stmt=None))
+        spec.funcs.append(h)
+        for e in r.sample(spec.entries, min(len(spec.entries), r.choice([1, 1, 2]))):
+            e.actions.append(Action("call", r.choice(S_SITES), callee=h.name, expr=None,
+                                    stmt="%s();" % h.name))
     finish_entries(r, spec, namer)
     return spec
 
